@@ -598,8 +598,11 @@ impl Connection {
                 }
 
                 // Congestion control and pacing checks
-                // Tail loss probes must not be blocked by congestion, or a deadlock could arise
-                if ack_eliciting && self.spaces[space_id].loss_probes == 0 {
+                // Tail loss probes must not be blocked by congestion, or a deadlock could arise.
+                // A packet carrying only CONNECTION_CLOSE is not ack-eliciting and never counts
+                // towards bytes in flight, so it is not subject to these checks either; otherwise
+                // a window-limited sender could never announce its close.
+                if ack_eliciting && !close && self.spaces[space_id].loss_probes == 0 {
                     // Assume the current packet will get padded to fill the segment
                     let untracked_bytes = if let Some(builder) = &builder_storage {
                         buf_capacity - builder.partial_encode.start
